@@ -652,49 +652,73 @@ def stats_part(rep, tmp):
     shutil.copy("/repo/tests/data/fmt-jpk-fd_spot3-0192.jpk-force", folder)
     shutil.copy("/repo/tests/data/fmt-jpk-fd_map2x2_extracted."
                 "jpk-force-map", folder)
-    for pname, settings in (("default", {}),
-                            ("cone", {"model_key": "hertz_cone",
-                                      "rating regressor": "Decision Tree",
-                                      "range_type": "relative cp",
-                                      "range_x": [-1e-6, 1e-6]})):
-        ppath = os.path.join(tmp, f"prof_{pname}.cfg")
-        pf = Profile(ppath)
+    profiles = (("default", {}),
+                ("cone", {"model_key": "hertz_cone",
+                          "rating regressor": "Decision Tree",
+                          "range_type": "relative cp",
+                          "range_x": [-1e-6, 1e-6]}))
+    ppaths = {}
+    for pname, settings in profiles:
+        ppaths[pname] = os.path.join(tmp, f"prof_{pname}.cfg")
+        pf = Profile(ppaths[pname])
         for k, v in settings.items():
             pf[k] = v
-        outdir = os.path.join(tmp, f"out_{pname}")
+    import afmformats
+    _exp = {}
+
+    def expected(pname):
+        if pname not in _exp:
+            ppath = ppaths[pname]
+            exp = []
+            for pp in afmformats.find_data(folder,
+                                           modality="force-distance"):
+                for idnt in IndentationGroup(pp):
+                    fresh = IndentationGroup(pp)[idnt.enum]
+                    rating.fit_data.__wrapped__(fresh, profile_path=ppath)
+                    E = fresh.fit_properties["params_fitted"]["E"].value
+                    pfx = Profile(ppath)
+                    r = round(fresh.rate_quality(
+                        training_set=pfx["rating training set"],
+                        regressor=pfx["rating regressor"]), ndigits=1)
+                    exp.append("\t".join([str(fresh.path), str(fresh.enum),
+                                          str(E), str(r)]))
+            _exp[pname] = exp
+        return _exp[pname]
+    # every sequence of one or two batch fits into one results directory:
+    # the file describes the last run, one row per curve
+    seqs = [(a,) for a, _ in profiles] \
+        + [(a, b) for a, _ in profiles for b, _ in profiles]
+    for seq in seqs:
+        outdir = os.path.join(tmp, "out_" + "_".join(seq))
         os.makedirs(outdir, exist_ok=True)
-        case = {"kind": "stats", "profile": pname}
-        try:
-            rating.fit_perform(folder, outdir, profile_path=ppath)
-        except BaseException as e:
-            if isinstance(e, (KeyboardInterrupt, SystemExit)):
-                raise
-            rep.violate(V(PROP, "profile-rejected", site="fit_perform",
-                          witness=pname, detail=repr(e), case=case,
-                          kind="stats"))
+        case = {"kind": "stats", "profiles": list(seq)}
+        wit = "->".join(seq)
+        failed = False
+        for pname in seq:
+            try:
+                rating.fit_perform(folder, outdir,
+                                   profile_path=ppaths[pname])
+            except BaseException as e:
+                if isinstance(e, (KeyboardInterrupt, SystemExit)):
+                    raise
+                rep.violate(V(PROP, "profile-rejected", site="fit_perform",
+                              witness=wit, detail=repr(e), case=case,
+                              kind="stats"))
+                failed = True
+                break
+        if failed:
             continue
         lines = open(os.path.join(outdir, "statistics.tsv")).read() \
             .splitlines()
-        import afmformats
-        exp = []
-        for pp in afmformats.find_data(folder, modality="force-distance"):
-            for idnt in IndentationGroup(pp):
-                fresh = IndentationGroup(pp)[idnt.enum]
-                rating.fit_data.__wrapped__(fresh, profile_path=ppath)
-                E = fresh.fit_properties["params_fitted"]["E"].value
-                pfx = Profile(ppath)
-                r = round(fresh.rate_quality(
-                    training_set=pfx["rating training set"],
-                    regressor=pfx["rating regressor"]), ndigits=1)
-                exp.append("\t".join([str(fresh.path), str(fresh.enum),
-                                      str(E), str(r)]))
+        exp = expected(seq[-1])
         n += len(exp)
         if lines[0].split("\t") != ["path", "enum", "E", "rating"] \
                 or lines[1:] != exp:
             rep.violate(V(PROP, "statistics-row", site="fit_perform",
-                          witness=pname, detail=f"rows {lines[1:3]} ... vs "
-                          f"expected {exp[:2]} ... ({len(lines) - 1} vs "
-                          f"{len(exp)} rows)", case=case, kind="stats"))
+                          witness=wit, detail=f"after batch fits {wit} into "
+                          f"one results directory: rows {lines[1:3]} ... vs "
+                          f"expected {exp[:2]} ... ({len(lines) - 1} rows "
+                          f"for {len(exp)} curves)", case=case, kind="stats"))
     rep.set("statistics_rows_checked", n)
     rep.add("transitions", n)
 
